@@ -5,6 +5,7 @@
 //verif:cover VerifC11PackStamps two-entries
 //verif:assume commit under faults: two completed splits (s1: a, c; s2: b, c) committed with a solver-chosen listing page size 1..7 and optionally one transient store fault at a solver-chosen store call of the commit (reads and listings included)
 //verif:cover VerifC11CommitFaults faulted-commit-failed page-size-1 no-fault
+//verif:cover VerifC11CutIndexRead cut
 package core
 
 import (
@@ -144,4 +145,34 @@ func VerifC11CommitFaults() {
 		vAssert(got["a"] == w.keyOf("s1-a") && got["b"] == w.keyOf("s2-b"), "files-carry-their-splits-content")
 		vAssert(got["c"] == w.keyOf("s2-c") && got[".conflicts/s1/c"] == w.keyOf("s1-c"), "latest-split-wins-and-the-loser-is-kept")
 	}
+}
+
+// VerifC11CutIndexRead: the transfer of a split's file list (or of its completion record) is cut while the commit
+// reads it: the commit fails; it never publishes a bundle built from the truncated document.
+func VerifC11CutIndexRead() {
+	vBudget(900000000)
+	vUnwind(300000)
+	w := vNewDiamondWorld()
+	vNextSecond()
+	vAssert(w.splitAdd("s1", map[string]string{"a": "s1-a", "c": "s1-c"}, []string{"a", "c"}) == nil, "split")
+	// the victim: s1's first file list, or its split-done record
+	victim := ""
+	for _, k := range w.vmeta.keys {
+		isList := containsStr(k, "/splits/s1/") && containsStr(k, "/bundle-files-")
+		isDone := k == model.GetArchivePathToFinalSplit("r", vDiamond, "s1")
+		if (vChoose("victim", 2) == 0 && isList) || (isDone && victim == "") {
+			victim = k
+		}
+	}
+	vAssert(victim != "", "victim")
+	n := len(w.vmeta.data[victim])
+	cut := vInt("cutAfter", 0, 40)
+	vAssume(cut < n)
+	vCover("cut")
+	w.vmeta.cutAfter = map[string]int{victim: cut}
+	before := len(w.bundleIDs())
+	_, err := w.commit(model.EnableConflicts)
+	w.vmeta.cutAfter = nil
+	vAssert(err != nil, "commit-over-a-cut-metadata-read-fails")
+	vAssert(len(w.bundleIDs()) == before, "no-bundle-is-published")
 }
